@@ -24,6 +24,7 @@ REQS = {
     'b': ((1, 2, 9), (1, 2)),
     'c': ((1, 2, 3, 9), (1, 2, 3)),
     'd': ((4, 9), (4,)),
+    'e': ((1, 8), (1,)),          # another request that expects the same reply pattern as 'a'
 }
 HORIZON = 2.45
 
@@ -76,7 +77,23 @@ def exec_c10(cfg, devs):
             setattr(cf, ln, _log_lock(type(getattr(cf, ln)), ex))
         else:
             p.cap('send-section lock of Crazyflie not identified: overlap rules not applied')
-        cf.packet_received.add_callback(lambda pk: ex.log('processed', (pk.header,) + tuple(pk.data)))
+        # the instant at which an incoming packet is matched against the pending patterns: a window around the library's own
+        # matcher (first in the all-packets Caller); if it cannot be found, one event after the matcher has run
+        cbs = getattr(cf.packet_received, 'callbacks', None)
+        idx = [i for i, c in enumerate(cbs or ()) if getattr(c, '__name__', '') == '_check_for_answers']
+        if len(idx) == 1:
+            matcher = cbs[idx[0]]
+
+            def windowed(pk, matcher=matcher):
+                d = (pk.header,) + tuple(pk.data)
+                ex.log('proc_begin', d, cfh._thread_name())
+                try:
+                    return matcher(pk)
+                finally:
+                    ex.log('processed', d, cfh._thread_name())
+            cbs[idx[0]] = windowed
+        else:
+            cf.packet_received.add_callback(lambda pk: ex.log('processed', (pk.header,) + tuple(pk.data)))
         info['cf'] = cf
 
         def issue(name):
@@ -175,6 +192,8 @@ def _judge(p, cfg, devs, ex, info):
     closed_done = {}
     issued = {}           # (name, link) -> position
     ntx = {}
+    windows = []          # [begin position, end position or None, packet] of the library's pattern matcher
+    maybe = set()         # requests registered while a packet they match was being matched: not judged
     for pos, e in enumerate(ev):
         k = e[1]
         if k == 'open':
@@ -186,21 +205,39 @@ def _judge(p, cfg, devs, ex, info):
             link_open[cur_link] = False
             closed_done[cur_link] = pos
             for pat in list(pending):
-                if pending[pat]['link'] == cur_link:
+                pending[pat] = [q for q in pending[pat] if q['link'] != cur_link]
+                if not pending[pat]:
                     del pending[pat]
         elif k == 'lockacq':
             last_lockacq[e[2]] = pos
         elif k == 'issue':
             name, link = e[2], e[3]
             issued[(name, link)] = pos
+        elif k == 'proc_begin':
+            if (e[2][0] & 0xf3) == (HDR & 0xf3):
+                windows.append([pos, None, e[2]])
         elif k == 'processed':
             d = e[2]
             if (d[0] & 0xf3) != (HDR & 0xf3):
                 continue
+            dirty = False
+            for w in windows:
+                if w[1] is None and w[2] == d:
+                    w[1] = pos
+                    dirty = len(w) > 3
+                    break
             cands = [pat for pat in pending if d[:len(pat)] == pat]
-            if cands:
+            if dirty:
+                # a request that could match this packet was being registered while the packet was being matched: the
+                # library may or may not have counted it in; nothing is demanded of the requests this packet could answer
+                for pat in cands:
+                    for q in pending[pat]:
+                        maybe.add((q['name'], q['link']))
+                    del pending[pat]
+            elif cands:
                 lm = max(cands, key=len)
-                answered_at[(pending[lm]['name'], pending[lm]['link'])] = pos
+                for q in pending[lm]:       # every request waiting for exactly this pattern has its matching packet now
+                    answered_at[(q['name'], q['link'])] = pos
                 del pending[lm]
         elif k == 'tx' and e[3] == HDR:
             t, link, data, st, th = e[0], e[2], e[4], e[5], e[6]
@@ -227,7 +264,18 @@ def _judge(p, cfg, devs, ex, info):
             ntx[key] = ntx.get(key, 0) + 1
             if ntx[key] == 1:
                 if cfg['resend']:
-                    pending[pat] = {'name': name, 'link': link, 't0': t, 'times': [t]}
+                    # its pattern was registered somewhere between the entry into the send section and this transmission:
+                    # a matching packet whose matching overlaps that span may or may not have found it
+                    began = last_lockacq.get(th, -1)
+                    for w in windows:
+                        if w[2][:len(pat)] == pat and w[0] < pos and (w[1] is None or w[1] > began):
+                            maybe.add(key)
+                            if w[1] is None and len(w) == 3:
+                                w.append('dirty')
+                    if key not in maybe:
+                        pending.setdefault(pat, []).append({'name': name, 'link': link, 't0': t})
+                continue
+            if key in maybe:
                 continue
             # a retransmission
             if not cfg['resend']:
@@ -239,8 +287,6 @@ def _judge(p, cfg, devs, ex, info):
                     viol('retransmitted_after_answer', 'request %r retransmitted at t=%.3f by %s although its answer had '
                          'been processed before the sender entered the send section' % (name, t, th))
                 continue
-            if pat in pending:
-                pending[pat]['times'].append(t)
     # ---- cadence: every pending-or-answered request retransmits exactly every timeout ----------
     to = cfg['timeout']
     tx_times = {}
@@ -252,6 +298,8 @@ def _judge(p, cfg, devs, ex, info):
             tx_times.setdefault((name[0], link), []).append(t)
     if cfg['resend']:
         for (name, link), times in tx_times.items():
+            if (name, link) in maybe:
+                continue
             # end of obligation: answer processed, link closed, or horizon
             end_t = _horizon(cfg)
             why = 'horizon'
@@ -319,6 +367,11 @@ def configs(quick):
         _cfg('error-reopen:0.3+0.05', 'a', close_at=0.3, reopen_after=0.05, reqs2='d', by_error=True),
         _cfg('error-reopen:1.0', 'a', timeout=1.0, close_at=0.5, reopen_after=0.2, reqs2='d', by_error=True),
         _cfg('error:0.3', 'ab', close_at=0.3, by_error=True),
+        # two requests waiting for one and the same reply pattern, and the same pattern awaited again in the next session
+        _cfg('same:ae', 'ae'),
+        _cfg('same:ae:gap', 'ae', gap=0.1),
+        _cfg('reopen:same-pattern:tie', 'a', close_at=0.4, reopen_after=0.0, reqs2='e'),
+        _cfg('reopen:same-pattern', 'a', close_at=0.3, reopen_after=0.05, reqs2='e'),
     ]
     return out
 
@@ -333,10 +386,10 @@ def _focus_filter(devs, i, alt, label):
 
 def run(ck):
     cfh.setup()
-    ck.rule = ('19 request scenarios (single / prefix-sharing patterns / unsolicited matching packet / close / link error / close+reopen / error+reopen '
+    ck.rule = ('%d request scenarios (single / prefix-sharing patterns / two requests awaiting one pattern / the same pattern awaited in the next session / unsolicited matching packet / close / link error / close+reopen / error+reopen '
                '/ reliable link / 1 s timeout) x deviation vectors over: reply to each transmission in {lost, +0, +0.1, '
                '+0.2 (tie), +0.3, +0.5 s}, unsolicited packet and user close/reopen at any scheduling point, thread order '
-               'at equal instants; horizon 2.45 s virtual; non-trivial = at least one deviation')
+               'at equal instants; horizon 2.45 s virtual; non-trivial = at least one deviation' % len(configs(ck.quick)))
     ck.assume('a send_packet that entered the send section before close_link/the link error completed overlaps it and is '
               'not counted as a transmission on a closed link')
     ck.assume('a retransmission whose sender entered the send section before the answer was processed is tolerated '
@@ -349,7 +402,7 @@ def run(ck):
     cs = configs(ck.quick)
     r = explore(ck, exec_c10, cs, 1)
     ck.note('exploration_one_deviation', r)
-    deep_names = ('single:0.2', 'inject:ab', 'reopen:tie', 'user2:close+reopen') if ck.quick else tuple(c['name'] for c in cs)
+    deep_names = ('single:0.2', 'inject:ab', 'reopen:tie', 'user2:close+reopen', 'same:ae', 'reopen:same-pattern:tie') if ck.quick else tuple(c['name'] for c in cs)
     deep = [dict(c, name=c['name'] + ':2dev', short=True) for c in cs if c['name'] in deep_names]
     r2 = explore(ck, exec_c10, deep, 2, max_execs=3000000)
     ck.note('exploration_two_deviations', r2)
